@@ -32,6 +32,9 @@ from . import packages as pk
 from .e2e import gen_selector, enc, dec, fmt_sel, ef, chi_tol, crit_margin, parse_text
 
 PID = 'E2E3'
+# Every row of every listing is compared with the pipeline model; most of that is the business of other properties, so a
+# disagreement is reported as a broken correspondence of the pipeline model under C02, not as an input violating C02.
+E2E3_VERDICT = None
 RULE = ('cases = (cube package of 2-5 models in arbitrary cube order, 2-5 apertures, 5-15 wavelengths in either stored '
         'order, uncertainties, parameters.fits in cube order with 2-3 columns; 1-5 entries, each a broadband filter '
         '(3-6 nodes, either stored order, normalised or not, convolved from the cube) or a wavelength Quantity (on a '
@@ -687,11 +690,11 @@ def run_case(case):
             real = run_real(case, d)
         except TooSmall as e:
             if not on_knot_kind:
-                return CaseResult(False, violates=True, key=key,
+                return CaseResult(False, violates=E2E3_VERDICT, key=key,
                                   detail='Fitter(...) raised "%s" although theta*dmin >= 1.001 x the smallest aperture (%s)' % (e, describe(case)))
         except Exception as e:      # noqa: BLE001
             import traceback
-            return CaseResult(False, violates=True, key=key,
+            return CaseResult(False, violates=E2E3_VERDICT, key=key,
                               detail='the pipeline raised on an in-domain input: %r (%s)\n%s' % (e, describe(case), traceback.format_exc()[-1500:]))
         if real is None:
             # theta*dmin sits on the smallest aperture: 10**log10(dmin) may round below it
@@ -725,21 +728,21 @@ def run_case(case):
                 branches.add('filter_inc_nu' if nus[0] < nus[-1] else 'filter_dec_nu')
                 rc = real['conv'][e['name']]
                 if rc['names'] != names:
-                    return CaseResult(False, violates=True, key=key,
+                    return CaseResult(False, violates=E2E3_VERDICT, key=key,
                                       detail='convolved/%s.fits lists rows %r; the cube (and parameter table) order is %r' % (e['name'], rc['names'], names))
                 if not common.close(rc['wav'], mc['wav'], 1e-12) or rc['aps'] != [float(a) for a in case['aps']]:
-                    return CaseResult(False, violates=True, key=key,
+                    return CaseResult(False, violates=E2E3_VERDICT, key=key,
                                       detail='convolved/%s.fits central wavelength %r, apertures %r; filter has %r, cube has %r'
                                       % (e['name'], rc['wav'], rc['aps'], float(mc['wav']), case['aps']))
                 if rc['flux'].shape != (nm, len(case['aps'])):
-                    return CaseResult(False, violates=True, key=key, detail='convolved/%s.fits flux shape %r' % (e['name'], rc['flux'].shape))
+                    return CaseResult(False, violates=E2E3_VERDICT, key=key, detail='convolved/%s.fits flux shape %r' % (e['name'], rc['flux'].shape))
                 for i, (nme, cells) in enumerate(mc['rows']):
                     for a, (mf, mv) in enumerate(cells):
                         gf, ge = float(rc['flux'][i, a]), float(rc['err'][i, a])
                         okf = abs(gf - float(mf)) <= 1e-9 * abs(float(mf)) and np.isfinite(gf)
                         okv = abs(ge * ge - float(mv)) <= 4e-9 * abs(float(mv)) and np.isfinite(ge)
                         if not (okf and okv):
-                            return CaseResult(False, violates=True, key=key,
+                            return CaseResult(False, violates=E2E3_VERDICT, key=key,
                                               detail=('convolved/%s.fits row %d (%s) aperture %d: flux %r mJy, error %r mJy (error^2 %r); the '
                                                       'convolution of cube row %d, aperture %d gives flux %r, error^2 %r (%s)'
                                                       % (e['name'], i, nme, a, gf, ge, ge * ge, i, a, float(mf), float(mv), describe(case))))
@@ -772,10 +775,10 @@ def run_case(case):
         # ---------------- the arrays the fitter holds
         rm = real['models']
         if rm['names'] != names:
-            return CaseResult(False, violates=True, key=key, detail='fitter.models.names %r; cube order %r' % (rm['names'], names))
+            return CaseResult(False, violates=E2E3_VERDICT, key=key, detail='fitter.models.names %r; cube order %r' % (rm['names'], names))
         ecen = [e['cen'] if e['kind'] == 'band' else mono_um(e) for e in case['entries']]
         if not all(common.close(a, b, 1e-12) for a, b in zip(rm['wavelengths'], ecen)):
-            return CaseResult(False, violates=True, key=key, detail='fitter.models.wavelengths %r; entries are at %r um' % (rm['wavelengths'], ecen))
+            return CaseResult(False, violates=E2E3_VERDICT, key=key, detail='fitter.models.wavelengths %r; entries are at %r um' % (rm['wavelengths'], ecen))
         if mod['ceil_m'] < MARGIN:
             x_float = 1 + (np.log10(case['dmax']) - np.log10(case['dmin'])) / case['step']
             if mod['ceil_m'] < 1e-30 and x_float == round(x_float):
@@ -784,12 +787,12 @@ def run_case(case):
                 return CaseResult(True, branches=branches, key=key, nontrivial=True, relaxed=1)
         nd = mod['nd']
         if len(rm['distances']) != nd:
-            return CaseResult(False, violates=True, key=key,
+            return CaseResult(False, violates=E2E3_VERDICT, key=key,
                               detail='grid length: fitter.models.distances has %d points, the minimal grid with spacing <= step has %d (%s)'
                               % (len(rm['distances']), nd, describe(case)))
         for i in range(nd):
             if not common.close(rm['distances'][i], mod['dists'][i], 1e-12) or not abs(rm['logd'][i] - math.log10(float(mod['dists'][i]))) <= 1e-12:
-                return CaseResult(False, violates=True, key=key,
+                return CaseResult(False, violates=E2E3_VERDICT, key=key,
                                   detail='trial distance %d: %r kpc (logd %r); the grid gives %r (%s)' % (i, rm['distances'][i], rm['logd'][i], float(mod['dists'][i]), describe(case)))
         branches.add('dmin_eq_dmax' if case['dmin'] == case['dmax'] else 'multi_distance')
         if any(e['theta'] * case['dmax'] * 1000. > case['aps'][-1] for e in case['entries']):
@@ -797,7 +800,7 @@ def run_case(case):
         if any(e['theta'] * case['dmin'] * 1000. < case['aps'][-1] for e in case['entries']):
             branches.add('inside_table')
         if rm['fluxes'].shape != (nm, nd, len(case['entries'])):
-            return CaseResult(False, violates=True, key=key, detail='fitter.models.fluxes shape %r' % (rm['fluxes'].shape,))
+            return CaseResult(False, violates=E2E3_VERDICT, key=key, detail='fitter.models.fluxes shape %r' % (rm['fluxes'].shape,))
         fcond = {}
         for blk in mod['blocks']:
             for n, pm in blk['models'].items():
@@ -813,7 +816,7 @@ def run_case(case):
                     lf = mm['lfs'][k][j]
                     lmax = max(lmax, abs(lf))
                     if not (g > 0 and abs(math.log10(g) - lf) <= tol):
-                        return CaseResult(False, violates=True, key=key,
+                        return CaseResult(False, violates=E2E3_VERDICT, key=key,
                                           detail=('fitter.models.fluxes[%d (%s), distance %d, entry %d] = %r mJy; cube row %d through that entry, '
                                                   'interpolated to theta*d = %r AU and scaled by (kpc/d)^2 gives %r (%s)'
                                                   % (i, names[i], k, j, float(g), i, case['entries'][j]['theta'] * float(mod['dists'][k]) * 1000.,
@@ -822,11 +825,11 @@ def run_case(case):
         header, text_blocks = parse_text(real['text'])
         expect_cols = ['fit_id', 'model_name', 'chi2', 'av', 'scale'] + [c.lower() for c in case['cols']]
         if header != expect_cols:
-            return CaseResult(False, violates=True, key=key, detail='write_parameters header %r; expected %r' % (header, expect_cols))
+            return CaseResult(False, violates=E2E3_VERDICT, key=key, detail='write_parameters header %r; expected %r' % (header, expect_cols))
         blocks = mod['blocks']
         if [r['source'] for r in real['records']] != [b['source'] for b in blocks] or \
                 [b[0] for b in text_blocks] != [b['source'] for b in blocks]:
-            return CaseResult(False, violates=True, key=key,
+            return CaseResult(False, violates=E2E3_VERDICT, key=key,
                               detail='sources in fit file %r / text %r; sources with n_data >= %d are %r'
                               % ([r['source'] for r in real['records']], [b[0] for b in text_blocks], case['n_data_min'],
                                  [b['source'] for b in blocks]))
@@ -853,50 +856,50 @@ def run_case(case):
             err, rx = compare_ranked(what, irows, blk['rec'], blk, tol, relax_n)
             relaxed += rx
             if err:
-                return CaseResult(False, violates=True, key=key, detail=err + ' (%s)' % describe(case), branches=branches)
+                return CaseResult(False, violates=E2E3_VERDICT, key=key, detail=err + ' (%s)' % describe(case), branches=branches)
             if not (len(rec['chi2']) == len(rec['av']) == len(rec['sc']) == len(rec['name']) == len(rec['model_id'])):
-                return CaseResult(False, violates=True, key=key, detail=what + ': per-fit arrays of different lengths')
+                return CaseResult(False, violates=E2E3_VERDICT, key=key, detail=what + ': per-fit arrays of different lengths')
             if any(rec['chi2'][i] > rec['chi2'][i + 1] for i in range(len(rec['chi2']) - 1)):
-                return CaseResult(False, violates=True, key=key, detail=what + ': chi2 not non-decreasing: %r' % (list(rec['chi2']),))
+                return CaseResult(False, violates=E2E3_VERDICT, key=key, detail=what + ': chi2 not non-decreasing: %r' % (list(rec['chi2']),))
             if real['records_mem'] is not None:
                 mem = real['records_mem'][bi_]
                 if mem['name'] != rec['name'] or list(mem['chi2']) != list(rec['chi2']):
-                    return CaseResult(False, violates=True, key=key,
+                    return CaseResult(False, violates=E2E3_VERDICT, key=key,
                                       detail='%s: the FitInfo handed to write_parameters now holds %r; it was written as %r'
                                       % (what, mem['name'], rec['name']))
             # every reported scale is log10 of a grid distance (E2E3_grid)
             for i, nme in enumerate(rec['name']):
                 if not any(abs(rec['sc'][i] - x) <= 1e-9 for x in rm['logd']):
-                    return CaseResult(False, violates=True, key=key,
+                    return CaseResult(False, violates=E2E3_VERDICT, key=key,
                                       detail='%s: model %s reports scale %r, which is not log10 of a trial distance %r' % (what, nme, float(rec['sc'][i]), rm['logd']))
             what = 'listing, source %s' % blk['source']
             if tb[1] != blk['n_data']:
-                return CaseResult(False, violates=True, key=key, detail='%s: n_data %d; flags %r have %d fitted points'
+                return CaseResult(False, violates=E2E3_VERDICT, key=key, detail='%s: n_data %d; flags %r have %d fitted points'
                                   % (what, tb[1], flags, blk['n_data']))
             if tb[2] != len(tb[3]):
-                return CaseResult(False, violates=True, key=key, detail='%s: n_fits %d but %d rows' % (what, tb[2], len(tb[3])))
+                return CaseResult(False, violates=E2E3_VERDICT, key=key, detail='%s: n_fits %d but %d rows' % (what, tb[2], len(tb[3])))
             if tb[2] != blk['n_fits'] and not relax_n:
-                return CaseResult(False, violates=True, key=key, detail='%s: n_fits %d; the selectors %r then %r keep %d of the ranking %r'
+                return CaseResult(False, violates=E2E3_VERDICT, key=key, detail='%s: n_fits %d; the selectors %r then %r keep %d of the ranking %r'
                                   % (what, tb[2], case['sel_fit'], case['sel_out'], blk['n_fits'], [float(c) for c in ranked]))
             trows = []
             for i, row in enumerate(tb[3]):
                 if len(row) != 5 + len(case['cols']) or row[0] != str(i + 1):
-                    return CaseResult(False, violates=True, key=key, detail='%s: row %d is %r' % (what, i, row))
+                    return CaseResult(False, violates=E2E3_VERDICT, key=key, detail='%s: row %d is %r' % (what, i, row))
                 trows.append(dict(name=row[1], chi2=float(row[2]), av=float(row[3]), sc=float(row[4]), slack=5.001e-4, pars=row[5:]))
             err, rx = compare_ranked(what, trows, blk['rows'], blk, tol, relax_n)
             relaxed += rx
             if err:
-                return CaseResult(False, violates=True, key=key, detail=err + ' (%s)' % describe(case), branches=branches)
+                return CaseResult(False, violates=E2E3_VERDICT, key=key, detail=err + ' (%s)' % describe(case), branches=branches)
             for i, r in enumerate(trows):
                 want = [('%10.3e' % v).strip() for v in params[r['name']]]
                 if r['pars'] != want:
-                    return CaseResult(False, violates=True, key=key,
+                    return CaseResult(False, violates=E2E3_VERDICT, key=key,
                                       detail='%s row %d (model %s): parameter columns %r; that model\'s row of parameters.fits is %r'
                                       % (what, i, r['name'], r['pars'], want))
                 if i < len(irows) and irows[i]['name'] == r['name']:
                     for col in ('chi2', 'av', 'sc'):
                         if ('%10.3f' % irows[i][col]).strip() != tb[3][i][{'chi2': 2, 'av': 3, 'sc': 4}[col]]:
-                            return CaseResult(False, violates=True, key=key,
+                            return CaseResult(False, violates=E2E3_VERDICT, key=key,
                                               detail='%s row %d: %s printed as %r; the fit file holds %r'
                                               % (what, i, col, tb[3][i], irows[i][col]))
             for r in blk['rows']:
@@ -910,7 +913,7 @@ def run_case(case):
                 if float(pm['chi2']) < 1e-3 * min(others + [1e300]) and pm['bi'] == pl['i0']:
                     branches.add('planted_first')
                     if trows[0]['name'] != names[pl['m']] or abs(trows[0]['sc'] - rm['logd'][pl['i0']]) > 6e-4:
-                        return CaseResult(False, violates=True, key=key,
+                        return CaseResult(False, violates=E2E3_VERDICT, key=key,
                                           detail='%s: photometry planted from model %s at grid distance %d (log d %r); row 1 is %r'
                                           % (what, names[pl['m']], pl['i0'], rm['logd'][pl['i0']], tb[3][0]))
             # ---- branches
